@@ -10,9 +10,10 @@ NAMES = gen.CHROMNAMES
 
 
 def _spell(s):
+    conv = getattr(np, s["np"]) if s.get("np") else int          # the index as a NumPy scalar of that dtype (it fits)
     if s["kind"] == "scalar":
-        return s["a"][0]
-    return slice(s["a"][0] if s["a"] else None, s["b"][0] if s["b"] else None)
+        return conv(s["a"][0])
+    return slice(conv(s["a"][0]) if s["a"] else None, conv(s["b"][0]) if s["b"] else None)
 
 
 def _cell(col, v):
@@ -31,10 +32,10 @@ def _make(case, ctx):
     at = case.get("at")
     uri = path
     if at:
-        cooler.create_cooler(path, gen.bins_frame(table, extra={"w": [v + 1 for v in case["w"]]}),
+        cooler.create_cooler(path, gen.bins_frame(table, extra={case.get("wname", "w"): [v + 1 for v in case["w"]]}),
                              gen.pixels_frame(gen.decoy_px(case["px"])), ordered=True, symmetric_upper=case["mode"] == "symm")
         uri = path + "::" + at
-    bins = gen.bins_frame(table, extra={"w": case["w"]})
+    bins = gen.bins_frame(table, extra={case.get("wname", "w"): case["w"]})       # the extra integer column, under any name
     cooler.create_cooler(uri, bins, gen.pixels_frame(case["px"]), ordered=True, symmetric_upper=case["mode"] == "symm", mode="a")
     if case.get("encoding") == "int":
         with h5py.File(path, "r+") as f:
